@@ -89,7 +89,7 @@ TYPE_BODIES = ['1', '"s"', '@a', '@b', '@a | @b', '@b | @c', '{\n  @a: 1\n}', '{
 
 class Prop:
     id = 'C02'
-    level = 'proof'
+    level = 'other'
     theorems_file = 'Properties/C02.v'
     uses_model = False
     exhaustive_note = ''
